@@ -62,6 +62,16 @@ def check(run):
             render_replay(run, name, recs, ops_file=OPS_FILE, table="BigTable", pre_ops_file=PRE_OPS_FILE)
         else:
             render_replay(run, name, recs)
+    # directed: long chains, whose rendering nests differently from the source (`x not in x not in ...` renders as not (not (...)))
+    run.rules.append("directed deep programs: chains of 100 / 127 / 128 / 200 `not in`, 200 prefix minuses, 120 parentheses, 100 right-nested subtractions: whatever the parser accepts must render to text it accepts again as the same tree")
+    deep = [("x " + "not in x " * n).strip() for n in (100, 127, 128, 200)] + ["- " * 200 + "x", "(" * 120 + "x" + ")" * 120, "1 - (" * 100 + "1" + ")" * 100, "! " * 100 + "(a && b)"]
+    for text in deep:
+        out, _ = core.run_vh(["render-one", text])
+        run.traces += 1
+        run.evaluations += 1
+        if out and out[0].get("parsed") and out[0].get("why"):
+            run.violation("C12/render/deep", "%s (program %r...)" % (out[0]["why"][:200], text[:60]), {"family": "render", "text": text, "why": out[0]["why"][:300], "ops_file": None, "pre_ops_file": None})
+    run.leg("R:render/deep", programs=len(deep))
     tpath = os.path.join(tlc.WORK, "render-trace-random.ndjson")
     out, _ = core.run_vh(["render-record", "--seed", run.seed, "--n", 10000 if thorough else 1500, "--trace-out", tpath])
     finish(run, "random", out, tpath, "record")
